@@ -101,7 +101,7 @@ fn expected_value_bytes(fam: &str, n: usize, tag: u8) -> Option<Vec<u8>> {
         "move_u32" => Some(vec![tag; 4 * n]),
         "fill_u64" | "iter_exact_u64" => Some(vec![tag; 8 * n]),
         "str" => Some(vec![b'a' + tag % 26; n]),
-        "cstr_from_str" => {
+        "cstr_from_str" | "cstr" => {
             let mut vv = vec![b'a' + tag % 26; n];
             vv.push(0);
             Some(vv)
